@@ -2,6 +2,7 @@
 package xprotocol
 
 import (
+	"net"
 	"context"
 
 	"mosn.io/api"
@@ -15,6 +16,7 @@ import (
 )
 
 type zzDRecv struct {
+	decodeErrors int
 	ctx    context.Context
 	header api.HeaderMap
 	data   buffer.IoBuffer
@@ -24,7 +26,7 @@ type zzDRecv struct {
 func (r *zzDRecv) OnReceive(ctx context.Context, h api.HeaderMap, d buffer.IoBuffer, t api.HeaderMap) {
 	r.header, r.data = h, d
 }
-func (r *zzDRecv) OnDecodeError(ctx context.Context, err error, h api.HeaderMap) {}
+func (r *zzDRecv) OnDecodeError(ctx context.Context, err error, h api.HeaderMap) { r.decodeErrors++ }
 
 type zzDServer struct {
 	types.ServerStreamConnectionEventListener
@@ -211,3 +213,63 @@ func VerifC07_DispatchThreeReads_T() {
 		return bolt.NewRpcRequest(id, zzHdr{"service": svc}, buffer.NewIoBufferBytes(body))
 	}, 3, 2)
 }
+
+
+// VerifC08_BoltMalformedHeaderDispatch: a complete bolt request frame whose header block is
+// malformed (a key or value length that runs past the block; 6 arbitrary block bytes),
+// followed by a well-formed request, through the real server-side Dispatch. The malformed
+// request is reported to the proxy exactly once - as a decode error, so that it is answered
+// with an error (C03's DecodeError harness decides that part) - or the connection is closed;
+// its bytes are consumed; nothing panics.
+func VerifC08_BoltMalformedHeaderDispatch() {
+	verif.NoPanic()
+	ctx := zzStreamCtx()
+	proto := (&bolt.XCodec{}).NewXProtocol(ctx)
+	srv := &zzDServer{}
+	conn := &zzCloseConn{}
+	sc := &streamConn{ctx: ctx, netConn: conn, ctxManager: stream.NewContextManager(ctx),
+		protocol: proto, protocolName: bolt.ProtocolName, serverCallbacks: srv}
+	sc.ctxManager.Next()
+	hb := verif.Bytes("header_block", 6)
+	f := []byte{1, 1, 0, 1, 1, 0, 0, 0, 7, 1, 0, 0, 0, 0, 0, 0, 0, byte(len(hb)), 0, 0, 0, 1}
+	f = append(f, hb...)
+	f = append(f, 'x')
+	good := bolt.NewRpcRequest(9, zzHdr{"service": "s"}, buffer.NewIoBufferBytes([]byte("b")))
+	enc, err := proto.Encode(zzStreamCtx(), good)
+	verif.Assume(err == nil)
+	rb := buffer.NewIoBuffer(16)
+	rb.Write(f)
+	rb.Write(enc.Bytes())
+	for k := 0; k < 3 && rb.Len() > 0 && !conn.closed; k++ {
+		before := rb.Len()
+		sc.Dispatch(rb)
+		verif.Assert(rb.Len() < before || conn.closed, "Dispatch made no progress on a complete frame (the read loop would spin on it)")
+	}
+	if conn.closed {
+		return // closing the connection is the other contained outcome
+	}
+	verif.Assert(rb.Len() == 0, "bytes of complete frames left in the read buffer")
+	verif.Assert(len(srv.got) == 2, "each of the two request frames must reach the proxy exactly once (as a request or as a decode error)")
+	if len(srv.got) == 2 {
+		first := srv.got[0]
+		verif.Assert((first.header != nil) != (first.decodeErrors == 1), "the first request was neither delivered nor reported as a decode error exactly once")
+		verif.Assert(srv.got[1].header != nil && srv.got[1].decodeErrors == 0, "the well-formed request behind a malformed one was not delivered")
+		if first.decodeErrors == 1 {
+			verif.Cover("decode error reported")
+		}
+	}
+	verif.Cover("end")
+}
+
+type zzCloseConn struct {
+	zzTConn
+	closed bool
+}
+
+func (c *zzCloseConn) Close(api.ConnectionCloseType, api.ConnectionEvent) error {
+	c.closed = true
+	return nil
+}
+
+func (c *zzCloseConn) RemoteAddr() net.Addr { return nil }
+func (c *zzCloseConn) LocalAddr() net.Addr  { return nil }
